@@ -431,8 +431,10 @@ for sfx, sc in [("x", 8), ("w", 4), ("b", 1), ("s", 4), ("d", 8)]:
 
 
 def dist(bits, unit=4, fallback_bits=None):
-    """byte distances around the ends of a signed `bits`-bit field counted in `unit` bytes"""
+    """byte distances around the ends of a signed `bits`-bit field counted in `unit` bytes; the boundary subset
+    (quick tier, for the expensive distances) keeps the last encodable and first non-encodable distance per end"""
     lo, hi = -(1 << (bits - 1)) * unit, ((1 << (bits - 1)) - 1) * unit
+    ess = {0, 4, -4, 8, lo, lo - unit, hi, hi + unit}
     s = {0, 4, 8, 12, -4, -8, -12, lo, lo + unit, lo - unit, lo - 2 * unit, hi, hi - unit, hi + unit, hi + 2 * unit,
          2, -2, 6, -6, 1, -1}
     if bits <= 21:
@@ -440,9 +442,12 @@ def dist(bits, unit=4, fallback_bits=None):
     for k in range(2, min(bits, 22) + 1):
         s |= {(1 << k), -(1 << k), (1 << k) - 4, -(1 << k) - 4, (1 << k) + 4}
     if fallback_bits:
+        # inverted test + `b`: the b sits one instruction further, so the last reachable distance is fhi + 4
         flo, fhi = -(1 << (fallback_bits - 1)) * 4, ((1 << (fallback_bits - 1)) - 1) * 4
         s |= {flo, fhi, fhi + 4, flo - 4, flo + 4, fhi - 4, fhi + 8}
-    return Dom({v for v in s if -(1 << 31) + 64 <= v < (1 << 31) - 64})
+        ess |= {fhi + 4, fhi + 8, flo + 4, flo}
+    ok = lambda v: -(1 << 31) + 64 <= v < (1 << 31) - 64
+    return Dom({v for v in s | ess if ok(v)}, {v for v in ess if ok(v)})
 
 
 SPEC["b"] = Spec("", kind=1, doms={0: dist(26)})
